@@ -515,4 +515,117 @@ example :
   simp only [nvconv, List.mem_cons, List.not_mem_nil, or_false] at hm
   rcases hm with rfl | rfl | rfl | rfl <;> simp [countTag, txt]
 
+/-! ### the property's first sentence on the prompt BYTES, for a concrete messages-style template -/
+
+/-- harness style 3 as Parse delivers it: `{{range .Messages}}[{{.Role}}|{{.Content}}]{{end}}` -/
+def tInPlace : List Node :=
+  [.range (.field .messages)
+    [.text [91], .action (.field .role), .text [124], .action (.field .content), .text [93]] false []]
+
+/-- harness style 0: `{{if .System}}S<{{.System}}>{{end}}{{range .Messages}}{{if ne .Role "system"}}[{{.Role}}|{{.Content}}]{{end}}{{end}}` -/
+def tHeader : List Node :=
+  [.ite (.field .system) [.text [83, 60], .action (.field .system), .text [62]] false [],
+   .range (.field .messages)
+    [.ite (.ne (.field .role) (.str [115, 121, 115, 116, 101, 109]))
+      [.text [91], .action (.field .role), .text [124], .action (.field .content), .text [93]] false []] false []]
+
+/-- folding message bodies: if every body renders, the fold renders and contains each body -/
+theorem fold_bodies (body : Option RMsg → XOut) :
+    ∀ (l : List RMsg) (acc : Bytes), (∀ m ∈ l, ∃ b, body (some m) = XOut.ok b) →
+    ∃ o, l.foldl (fun (a : XOut) m => a.append (body (some m))) (XOut.ok acc) = XOut.ok o ∧ acc <:+: o ∧
+      ∀ m ∈ l, ∀ b, body (some m) = XOut.ok b → b <:+: o := by
+  intro l
+  induction l with
+  | nil => intro acc _; exact ⟨acc, rfl, List.infix_refl _, fun m hm => by simp at hm⟩
+  | cons a l ih =>
+    intro acc hall
+    obtain ⟨b, hb⟩ := hall a (by simp)
+    obtain ⟨o, ho, hacc, hrest⟩ := ih (acc ++ b) (fun m hm => hall m (by simp [hm]))
+    refine ⟨o, ?_, ?_, ?_⟩
+    · simp only [List.foldl_cons, hb, XOut.append]; exact ho
+    · exact (List.prefix_append acc b).isInfix.trans hacc
+    · intro m hm b' hb'
+      rcases List.mem_cons.mp hm with h | h
+      · subst h
+        rw [hb] at hb'; injection hb' with hb'; subst hb'
+        exact (List.suffix_append acc b).isInfix.trans hacc
+      · exact hrest m h b' hb'
+
+macro "inf_solve2" : tactic => `(tactic|
+  repeat (first
+    | rfl
+    | exact List.nil_infix
+    | exact List.infix_refl _
+    | exact (List.prefix_append _ _).isInfix
+    | apply List.infix_cons
+    | apply inf_left))
+
+def inPlaceBody : List Node :=
+  [.text [91], .action (.field .role), .text [124], .action (.field .content), .text [93]]
+
+theorem inplace_exec (root : Root) (hl : root.legacy = false) :
+    execList root tInPlace none =
+      (if root.msgs.isEmpty then execList root [] none
+       else root.msgs.foldl (fun (a : XOut) m => a.append (execList root inPlaceBody (some m))) (XOut.ok [])).append
+        (XOut.ok []) := by
+  obtain ⟨l, s, p, r, ms⟩ := root
+  simp only at hl
+  subst hl
+  rfl
+
+/-- **In-place messages template: every message handed to the template is in the prompt.** -/
+theorem inplace_renders_all (tv : TVar) (msgs : List RMsg) (m : RMsg) (hm : m ∈ msgs) :
+    ∃ b, execute tv tInPlace msgs = .ok b ∧ m.2 <:+: b := by
+  obtain ⟨g, hg, _, hg2⟩ := collateMsgs_infix msgs m hm
+  have hne : (collateMsgs msgs).isEmpty = false := by
+    cases h : collateMsgs msgs with
+    | nil => rw [h] at hg; simp at hg
+    | cons _ _ => rfl
+  have hbody : ∀ x : RMsg, execList ⟨false, (collate msgs).1, [], [], collateMsgs msgs⟩ inPlaceBody (some x)
+      = .ok ([91] ++ (roleName x.1 ++ ([124] ++ (x.2 ++ ([93] ++ []))))) := by
+    intro x
+    simp [inPlaceBody, execList, execNode, eval, evalField, printVal, XOut.append]
+  obtain ⟨o, ho, _, hall⟩ := fold_bodies
+    (execList ⟨false, (collate msgs).1, [], [], collateMsgs msgs⟩ inPlaceBody)
+    (collateMsgs msgs) [] (fun x _ => ⟨_, hbody x⟩)
+  refine ⟨o, ?_, ?_⟩
+  · have hm' : nodesMention Fld.messages tInPlace = true := by decide
+    have := inplace_exec ⟨false, (collate msgs).1, [], [], collateMsgs msgs⟩ rfl
+    simp only [hne, Bool.false_eq_true, if_false] at this
+    simp only [execute, hm', if_true]
+    show execList ⟨false, (collate msgs).1, [], [], (collate msgs).2⟩ tInPlace none = _
+    have e2 : (collate msgs).2 = collateMsgs msgs := rfl
+    rw [e2, this, ho]
+    simp [XOut.append]
+  · have := hall g hg _ (hbody g)
+    refine (hg2.trans ?_).trans this
+    inf_solve2
+
+/-- **The property's first sentence, end to end, for the in-place messages template** (current
+    /repo variant): whenever chatPrompt succeeds, the PROMPT BYTES contain the content of every
+    system message that precedes the retained run, of every retained message, and in particular of
+    the (rewritten) latest message of the conversation. -/
+theorem prompt_contains_system_and_retained_inplace {tv : TVar} {mode : Nat} {tf : Option Nat} {p : Bytes}
+    (hv : cfg.fixed = true)
+    (h : chatPromptT cfg tv tInPlace mode msgs tf = .ok q n sys ret imgs p) :
+    (∀ m ∈ msgs.take n, m.role = Role.system → renderPieces m.content <:+: p) ∧
+    (∀ m ∈ ret, renderPieces m.content <:+: p) ∧
+    (∃ m m', msgs.getLast? = some m ∧ ret.getLast? = some m' ∧ SameMsg m m' ∧
+      renderPieces m'.content <:+: p) := by
+  obtain ⟨cost, bad, hg, hexec⟩ := templ_ok_generic h
+  have key : ∀ m ∈ sys ++ ret, renderPieces m.content <:+: p := by
+    intro m hm
+    obtain ⟨b, hb, hin⟩ := inplace_renders_all tv ((sys ++ ret).map toRMsg) (toRMsg m)
+      (List.mem_map.mpr ⟨m, hm, rfl⟩)
+    rw [hexec] at hb
+    injection hb with hb
+    subst hb
+    exact hin
+  refine ⟨?_, fun m hm => key m (List.mem_append_right _ hm), ?_⟩
+  · intro m hm hr
+    exact key m (List.mem_append_left _ ((system_kept_fixed hg hv).2 m hm hr))
+  · obtain ⟨_, m, m', h1, h2, h3⟩ := latest_kept hg
+    exact ⟨m, m', h1, h2, h3, key m' (List.mem_append_right _ (List.mem_of_getLast? h2))⟩
+
+
 end OllamaVerif.C19
